@@ -21,6 +21,15 @@ CLAIMS = {
         ref="4.4"),
 }
 
+CLAIMS["C02"] = dict(
+    technique="Lean 4 proof (invariant: counters = printed counts mod 2^w; induction over diagnostic sequences and file lists) + model/impl correspondence on exit status, code files, counted diagnostics",
+    text="Theorems C02_status_iff, C02_codefile_iff, C02_summary_counts, C02_fatal_status, C02_status_range, C02_warnings_harmless hold for all diagnostic sequences, file lists and option records; "
+         "the counter width is regenerated from asmerr.c and the hypothesis 'messages per file < 2^width' is explicit (C02_bound_is_necessary proves it cannot be dropped). "
+         "Real asl runs (incl. 65535/65536/65537 diagnostics) are compared with the model and checked directly against the statement.",
+    note=TB + "Modelled, not verified: WrErrorString/WrXErrorPos classification and counting, -Werror, -w, -maxerrors, AssembleFile tail, main's exit code (Model/ErrCount.lean). "
+         "Outside the model: I/O failures (ChkIO, exit 4 start-up errors), EXPECT filtering (C20), multi-pass repetition of warnings (totals are read per final pass).",
+    ref="4.2")
+
 NOT_YET = "not claimed yet in this round: model/theorems/correspondence under construction (see DESIGN.md section 8 build order)"
 
 
